@@ -48,14 +48,17 @@ ParseNumber(s, i) ==
          hasExp == At(s, f2) \in {101, 69}
          e1 == IF At(s, f2 + 1) \in {43, 45} THEN f2 + 2 ELSE f2 + 1
          e2 == IF hasExp THEN DigitsEnd(s, e1) ELSE f2
+         eneg == At(s, f2 + 1) = 45
      IN IF hasFrac /\ f2 = f1 THEN JFail(f1)                    \* "1." : digit required
         ELSE IF hasExp /\ e2 = e1 THEN JFail(e1)                \* "1e" : digit required
-        ELSE IF hasExp \/ (i2 - i1) > 9 \/ (f2 - f1) > 3
+        ELSE IF (i2 - i1) > 9 \/ (f2 - f1) > 3 \/ (hasExp /\ ((e2 - e1) > 1 \/ (i2 - i1) > 3 \/ (f2 - f1) > 2 \/ s[e1] - 48 > 3))
              THEN JOkD(e2, JInt(0), FALSE)                      \* valid JSON, value outside the modelled domain
         ELSE LET ip == DigitsVal(s, i1, i2, 0)
                  fd == IF hasFrac THEN f2 - f1 ELSE 0
                  fp == IF hasFrac THEN DigitsVal(s, f1, f2, 0) ELSE 0
-                 mag == Rat(ip * Pow10(fd) + fp, Pow10(fd))
+                 ev == IF hasExp THEN s[e1] - 48 ELSE 0         \* one exponent digit, 0..3
+                 num == ip * Pow10(fd) + fp
+                 mag == IF eneg THEN Rat(num, Pow10(fd) * Pow10(ev)) ELSE Rat(num * Pow10(ev), Pow10(fd))
              IN JOk(e2, IF neg THEN NumNeg(mag) ELSE mag)
 
 (* the body of a JSON string starting after the opening quote; returns pos after the closing quote *)
